@@ -26,8 +26,9 @@ OUTPUTS = ["pandas", "numpy", "sparse"]
 def replay_case(case):
     if case["fails"] or case["empty"]:
         return []
-    df = matlib.gamma_frame(FRAMES[case["fid"]])
     formula = matlib.render_formula(case["written"], case["icpt"])
+    h0 = sum(map(ord, formula)) + case["fid"] + (7 if case["full_rank"] else 0)
+    df = matlib.gamma_frame(FRAMES[case["fid"]], index_kind=["default", "strings", "unsorted"][h0 % 3])
     bad = []
     # every output through the top-level function, and one (rotating) output again through the spec attached to the first result
     h = sum(map(ord, formula)) + case["fid"]
